@@ -1,5 +1,5 @@
 """Registry: which suites, oracles and trusted-base notes belong to which property."""
-from suites import gens, system, tower, timing, parsing, conc
+from suites import gens, system, tower, timing, parsing, conc, glue
 
 
 def c01_suites(tier):
@@ -12,7 +12,7 @@ def c02_suites(tier):
 
 
 def c03_suites(tier):
-    return [gens.PermuteSuite(), gens.GenHistorySuite(), gens.MethodRowsSuite(), system.GateSuite()]
+    return [gens.PermuteSuite(), gens.GenHistorySuite(), gens.MethodRowsSuite(), system.GateSuite(), system.SecondTouchSuite()]
 
 
 def c04_suites(tier):
@@ -24,11 +24,11 @@ def c05_suites(tier):
 
 
 def c06_suites(tier):
-    return [system.StartStopSuite(), system.RandomSessionSuite(), system.StatementLevelSuite()]
+    return [system.StartStopSuite(), system.RandomSessionSuite(), system.StatementLevelSuite(), glue.GlueSuite()]
 
 
 def c07_suites(tier):
-    return [system.StartStopSuite(), system.RandomSessionSuite()]
+    return [system.StartStopSuite(), system.RandomSessionSuite(), glue.GlueSuite()]
 
 
 def c20_suites(tier):
@@ -40,19 +40,19 @@ def c17_suites(tier):
 
 
 def c08_suites(tier):
-    return [system.OwnershipSuite(), tower.TowerViewSuite(), system.RandomSessionSuite()]
+    return [system.OwnershipSuite(), tower.TowerViewSuite(), system.RandomSessionSuite(), glue.GlueSuite()]
 
 
 def c16_suites(tier):
-    return [system.CompositionSuite(), gens.GenHistorySuite()]
+    return [system.CompositionSuite(), gens.GenHistorySuite(), glue.GlueSuite()]
 
 
 def c09_suites(tier):
-    return [system.WaitSuite(), system.RhythmSessionSuite()]
+    return [system.WaitSuite(), system.RhythmSessionSuite(), glue.GlueSuite()]
 
 
 def c11_suites(tier):
-    return [timing.AloneSuite(), system.RhythmSessionSuite()]
+    return [timing.AloneSuite(), system.RhythmSessionSuite(), glue.GlueSuite()]
 
 
 def c12_suites(tier):
@@ -73,7 +73,7 @@ def c15_suites(tier):
 
 def c10_suites(tier):
     return [timing.ProgressSuite(), system.RandomSessionSuite(), system.WaitSuite(), system.StartStopSuite(),
-            system.StatementLevelSuite()]
+            system.StatementLevelSuite(), glue.GlueSuite()]
 
 
 def c18_suites(tier):
@@ -81,7 +81,7 @@ def c18_suites(tier):
 
 
 def c19_suites(tier):
-    return [system.ServerSuite(), conc.ConcSuite(), timing.SpeedChangeSuite(), system.GateSuite()]
+    return [system.ServerSuite(), conc.ConcSuite(), timing.SpeedChangeSuite(), system.GateSuite(), glue.GlueSuite()]
 
 
 PROPS = {
